@@ -79,7 +79,26 @@ fn rev_menu(style: Style) -> Vec<Rev> {
     v
 }
 
+/// An object whose newest definition is `null` may be loaded as Null or not be present at all (an absent
+/// object IS the null object, ISO 32000-1 7.3.10); anything else under that number is a stale definition.
+fn diff_null_tolerant(expected: &BTreeMap<ObjectId, Object>, got: &BTreeMap<ObjectId, Object>) -> Option<String> {
+    if expected.iter().any(|(id, o)| matches!(o, Object::Null) && !got.contains_key(id)) {
+        let mut g = got.clone();
+        for (id, o) in expected {
+            if matches!(o, Object::Null) {
+                g.entry(*id).or_insert(Object::Null);
+            }
+        }
+        return cmp::diff_objects(expected, &g);
+    }
+    cmp::diff_objects(expected, got)
+}
+
 fn replacement(id: ObjectId, j: usize, was_stream: bool) -> Object {
+    // an object may also be redefined as the null object (which is not the same as leaving the older definition)
+    if !was_stream && (id.0 as usize + j) % 3 == 0 {
+        return Object::Null;
+    }
     let d = dict(vec![("Obj", Object::Integer(id.0 as i64)), ("Rev", Object::Integer(j as i64)), ("V", Object::string_literal(format!("r{}(", j)))]);
     if was_stream && j % 2 == 1 {
         Object::Stream(Stream::new(d, format!("stream of revision {}", j).into_bytes()))
@@ -119,8 +138,25 @@ fn check_a(bk: usize, style: Style, hist: &[Rev], container_base: bool, selfchec
 
 /// `member_order`: how object streams list their members (0 ascending, 1 descending, 2 rotated)
 fn check_a_order(bk: usize, style: Style, hist: &[Rev], container_base: bool, selfcheck: bool, member_order: usize) -> Result<(), (bool, String)> {
+    check_a_classes(bk, style, hist, container_base, selfcheck, member_order, None)
+}
+
+/// cross-reference spellings another producer may use in EVERY revision of a history (class-level deviations)
+const XREF_CLASSES: [(&str, usize); 15] = [
+    ("xs.w", 1), ("xs.w", 2), ("xs.w", 3), ("xs.w", 4), ("xs.w", 5), ("xs.index", 1), ("xs.index", 2), ("xs.filter", 1), ("xs.filter", 2),
+    ("xref.sections", 1), ("xref.sections", 2), ("xref.sections", 3), ("xref.update_zero", 1), ("xref.entry_eol", 1), ("xref.entry_eol", 2),
+];
+
+fn check_a_classes(bk: usize, style: Style, hist: &[Rev], container_base: bool, selfcheck: bool, member_order: usize, extra: Option<usize>) -> Result<(), (bool, String)> {
     let spec = spec_of(bk, style, hist, container_base);
-    let mut ch = if member_order == 0 { Chooser::new() } else { Chooser::with_classes(&[("os.member_order", member_order)]) };
+    let mut cl: Vec<(&str, usize)> = vec![];
+    if member_order != 0 {
+        cl.push(("os.member_order", member_order));
+    }
+    if let Some(x) = extra {
+        cl.push(XREF_CLASSES[x]);
+    }
+    let mut ch = if cl.is_empty() { Chooser::new() } else { Chooser::with_classes(&cl) };
     let (bytes, lay) = refpdf::write(&spec, &mut ch);
     let expected = refpdf::expected_objects(&spec, &lay, spec.sections.len());
     if selfcheck {
@@ -145,7 +181,7 @@ fn check_a_order(bk: usize, style: Style, hist: &[Rev], container_base: bool, se
         Err(e) => return Err((true, e)),
     }
     let doc = loaded.map_err(|e| (false, e))?;
-    if let Some(m) = cmp::diff_objects(&expected, &doc.objects) {
+    if let Some(m) = diff_null_tolerant(&expected, &doc.objects) {
         return Err((false, m));
     }
     if let Some(m) = cmp::diff_trailer(&spec.sections[0].trailer, &doc.trailer) {
@@ -213,7 +249,7 @@ fn check_b_tail(bk: usize, table: bool, hist: &[Rev], tail: usize) -> Result<(),
             Ok(Err(e)) => return Err(format!("step {}: IncrementalDocument::load_from: {}", j, e)),
             Err(p) => return Err(p),
         };
-        if let Some(m) = cmp::diff_objects(&model, &inc.get_prev_documents().objects) {
+        if let Some(m) = diff_null_tolerant(&model, &inc.get_prev_documents().objects) {
             return Err(format!("step {}: previous-revisions view differs from the model: {}", j, m));
         }
         let prev_digest = cmp::digest_doc(inc.get_prev_documents());
@@ -221,7 +257,10 @@ fn check_b_tail(bk: usize, table: bool, hist: &[Rev], tail: usize) -> Result<(),
         let mut changed: Vec<u32> = vec![];
         for (b, id) in designated.iter().enumerate() {
             if r.mask & (1 << b) != 0 {
-                inc.opt_clone_object_to_new_document(*id).map_err(|e| format!("step {}: clone {:?}: {}", j, id, e))?;
+                // (an object whose newest definition is null may legitimately be absent from the loaded view)
+                if !(matches!(model.get(id), Some(Object::Null)) && !inc.get_prev_documents().objects.contains_key(id)) {
+                    inc.opt_clone_object_to_new_document(*id).map_err(|e| format!("step {}: clone {:?}: {}", j, id, e))?;
+                }
                 let newv = replacement(*id, j + 1, matches!(objects[id], Object::Stream(_)));
                 inc.new_document.set_object(*id, newv.clone());
                 model.insert(*id, newv);
@@ -282,7 +321,7 @@ fn check_b_tail(bk: usize, table: bool, hist: &[Rev], tail: usize) -> Result<(),
         }
         // (4) reload yields the model
         let l = util::load(&out)?;
-        if let Some(m) = cmp::diff_objects(&model, &l.objects) {
+        if let Some(m) = diff_null_tolerant(&model, &l.objects) {
             return Err(format!("step {}: reload differs from the model: {}", j, m));
         }
         if let Some(m) = cmp::diff_trailer(&trailer, &l.trailer) {
@@ -419,7 +458,7 @@ fn check_l(bk: usize, hist: &[Rev]) -> Result<(), (bool, String)> {
         Err(e) => return Err((true, e)),
     }
     let doc = loaded.map_err(|e| (false, e))?;
-    if let Some(m) = cmp::diff_objects(&model, &doc.objects) {
+    if let Some(m) = diff_null_tolerant(&model, &doc.objects) {
         return Err((false, m));
     }
     let (_, trailer, _) = base(bk);
@@ -465,7 +504,7 @@ fn main() {
         let res = if c["producer"].as_str() == Some("L") {
             check_l(bk, &hist).err().map(|e| e.1)
         } else if c["producer"].as_str() == Some("A") {
-            check_a_order(bk, if table { Style::Table } else { Style::Stream }, &hist, c["container_base"].as_bool().unwrap_or(false), true, c["member_order"].as_u64().unwrap_or(0) as usize).err().map(|e| e.1)
+            check_a_classes(bk, if table { Style::Table } else { Style::Stream }, &hist, c["container_base"].as_bool().unwrap_or(false), true, c["member_order"].as_u64().unwrap_or(0) as usize, c["xref_class"].as_u64().map(|x| x as usize)).err().map(|e| e.1)
         } else {
             check_b_tail(bk, table, &hist, c["tail"].as_u64().unwrap_or(0) as usize).err()
         };
@@ -478,7 +517,7 @@ fn main() {
     run.rule(
         "all histories of <= k revisions (k=2 quick, 3 thorough) over 3 base documents x revision menu {8 subsets of 3 designated objects to \
          replace} x {0,1,2 added objects} x {plain, object stream} (stream files) x {xref table, xref stream}; producer A = reference writer \
-         (every history prefix is itself a node of the tree and is loaded as a complete file), producer B = IncrementalDocument replay with reload \
+         (every history prefix is itself a node of the tree and is loaded as a complete file; histories of <= 1 revision and every 8th longer one also with each of 15 cross-reference spelling classes - W widths incl. an absent type field, Index forms, filters, subsection forms - switched for all revisions; a replacement may be the null object), producer B = IncrementalDocument replay with reload \
          after every step, also on base files with 7 kinds of white space after the final %%EOF and with 127..130 (to 300 in thorough) appended revisions; a state is a history prefix, a transition appends one revision; non-trivial = at least one object redefined",
     );
     run.assume("no revision frees an object; no hybrid-reference files; the schedule is pinned (merge-order hook in Sorted mode), schedule independence is C08's subject");
@@ -514,6 +553,23 @@ fn main() {
                             break;
                         }
                     }
+                    // the same history with every cross-reference spelling class switched for all revisions
+                    // (all histories of <= 1 revision, every 8th longer one; all of depth <= 2 in thorough)
+                    let mut failing_class: Option<usize> = None;
+                    if outcome.is_ok() && (h.len() <= 1 || i % 8 == 0 || (run.thorough && h.len() <= 2)) {
+                        for x in 0..XREF_CLASSES.len() {
+                            let applies = (style == Style::Stream) == XREF_CLASSES[x].0.starts_with("xs.");
+                            if !applies {
+                                continue;
+                            }
+                            run.eval(1);
+                            outcome = check_a_classes(bk, style, h, container_base, true, 0, Some(x));
+                            if outcome.is_err() {
+                                failing_class = Some(x);
+                                break;
+                            }
+                        }
+                    }
                     match outcome {
                         Ok(()) => run.add_traces(1),
                         Err((true, m)) => {
@@ -524,7 +580,7 @@ fn main() {
                             let f = classify_a(bk, style, h, container_base);
                             run.fail(
                                 f,
-                                json!({"producer": "A", "base": bk, "style": if style == Style::Table {"table"} else {"stream"}, "container_base": container_base, "member_order": failing_order, "history": hist_json(h)}),
+                                json!({"producer": "A", "base": bk, "style": if style == Style::Table {"table"} else {"stream"}, "container_base": container_base, "member_order": failing_order, "xref_class": failing_class, "history": hist_json(h)}),
                                 &m,
                                 "each object number resolves to the most recent revision that defines it",
                             );
